@@ -152,7 +152,7 @@ func newCaseRun(sp *caseSpec) *caseRun {
 			arrived: make(chan struct{}), release: make(chan struct{}), done: make(chan struct{}), consumed: make(chan struct{})}
 		if os.local {
 			os.blockKind, os.finalKind = kLocal, kLocal
-			if o == oLocalMissing {
+			if o == oLocalMissing || o == oLocalMissingErr {
 				os.blockOrd, os.finalOrd = 1, 1
 			}
 		} else {
@@ -334,6 +334,11 @@ func (s storeDouble) WriteToShard(shard uint64, points []models.Point) error {
 			if ord == 0 || !s.c.created {
 				return tsdb.ErrShardNotFound
 			}
+		case oLocalMissingErr:
+			if ord == 0 || !s.c.created {
+				return tsdb.ErrShardNotFound
+			}
+			return errLocalStore
 		case oSilent:
 			if o.late == lateFails {
 				return errLateLocal
